@@ -5,7 +5,8 @@
 // ASSUME: the loop has no loopname, hence LoopStatistics<false> and PerThreadTimer<false> (statistics/reporting are not part of the property)
 // ASSUME: the executor pieces are driven by hand exactly as go<couldAbort=true>() does for one iteration: ThreadLocalData on the stack, setThreadContext(&tld.ctx), runQueue<1>(tld, wl) (= setjmp + pop + doProcess, longjmp -> abortIteration); the conflicting lockable is owned by a second SimpleRuntimeContext that stands for another thread's iteration
 // ASSUME: setjmp/longjmp are modelled by the translator as return-propagation to the frame that called _setjmp
-// OB: ob_exec_step tier=quick solver=cadical unwind=32 timeout=600 cbmc="--max-field-sensitivity-array-size 600" params=3,5 bounds="ForEachExecutor<ChunkFIFO<2>, Op, Args> with conflict detection: worklist holds 2 symbolic items; ONE iteration whose operator pushes k = 0..2 symbolic children and then {commits; acquires a free lockable and commits; calls ctx.abort(); acquires a free lockable, pushes, then hits a lockable owned by another context (signalConflict -> longjmp); acquires nothing and hits the owned lockable}" desc="commit: the worklist holds exactly the other initial item plus the k children, the push buffer is empty, the abort queue is empty, no lockable is still owned by the iteration; abort/conflict: the worklist holds exactly the other initial item (no child became work), the abort queue holds exactly the aborted item with retries 1, the push buffer is empty, every lockable acquired by the attempt is released and the foreign lockable still belongs to its owner; the operator ran exactly once"
+// OB: ob_exec_step tier=quick solver=cadical unwind=32 timeout=600 cbmc="--max-field-sensitivity-array-size 600" params=2,5 bounds="ForEachExecutor<ChunkFIFO<2>, Op, Args> with conflict detection: worklist holds 2 symbolic items; ONE iteration whose operator pushes k = 0 or 2 symbolic children (k = 1 is ob_exec_retry) and then {commits; acquires a free lockable and commits; calls ctx.abort(); acquires a free lockable, pushes, then hits a lockable owned by another context (signalConflict -> longjmp); acquires nothing and hits the owned lockable}" desc="commit: the worklist holds exactly the other initial item plus the k children, the push buffer is empty, the abort queue is empty, no lockable is still owned by the iteration; abort/conflict: the worklist holds exactly the other initial item (no child became work), the abort queue holds exactly the aborted item with retries 1, the push buffer is empty, every lockable acquired by the attempt is released and the foreign lockable still belongs to its owner; the operator ran exactly once"
+// OB: ob_exec_step_k1 tier=thorough solver=cadical unwind=32 timeout=600 cbmc="--max-field-sensitivity-array-size 600" params=5 bounds="as ob_exec_step with k = 1 child" desc="commit/abort step of the executor, k = 1"
 // OB: ob_exec_retry tier=quick solver=cadical unwind=32 timeout=600 cbmc="--max-field-sensitivity-array-size 600" params=2 bounds="as ob_exec_step with k = 1 and a voluntary abort, then runQueue<1> on the abort queue (what handleAborts does) with the operator aborting again | committing" desc="a retried item that aborts again returns to the abort queue with retries 2 and nothing else changes; a retried item that commits leaves the abort queue empty and its child becomes work"
 // OB: ob_exec_noabort tier=quick solver=cadical unwind=32 timeout=600 cbmc="--max-field-sensitivity-array-size 600" params=3 bounds="ForEachExecutor with disable_conflict_detection (needsAborts = false): runQueueSimple drains a worklist of 2 items whose operator pushes k = 0..2 children for the first item only" desc="every item and every child is applied exactly once and the loop body returns with an empty worklist and an empty push buffer"
 #include "C01_env.h"
@@ -105,10 +106,10 @@ void expect_worklist(WLTy& wl, const int* exp, unsigned n) {
 bool owned(Lockable& l) { return l.owner.getValue() != nullptr || l.owner.is_locked(); }
 } // namespace
 
-OB(exec_step) {
+static void exec_step_body(unsigned k, unsigned mode) {
   setup_env();
-  g_k    = vf_param(0);
-  g_mode = vf_param(1);
+  g_k    = k;
+  g_mode = mode;
   for (unsigned j = 0; j < 2; ++j) g_child[j] = sym();
   static int init[2];
   init[0] = sym();
@@ -151,6 +152,9 @@ OB(exec_step) {
     expect_worklist(ex.wl, exp, 1);
   }
 }
+
+OB(exec_step) { exec_step_body(vf_param(0) * 2, vf_param(1)); }
+OB(exec_step_k1) { exec_step_body(1, vf_param(0)); }
 
 OB(exec_retry) {
   setup_env();
